@@ -510,7 +510,7 @@ void Var::operator=(const String& x)
 
 const Var& Var::operator[](int i) const
 {
-	if(_type==ARRAY)
+	if(_type==ARRAY && i >= 0 && i < _a->length())
 		return (*_a)[i];
 
 	return none;
